@@ -15,6 +15,13 @@ import (
 	_ "verifmc/props/c29"
 )
 
+func scenName() string {
+	if n := os.Getenv("C29_SCEN"); n != "" {
+		return n
+	}
+	return "c29/rewards"
+}
+
 func main() {
 	if len(os.Args) > 2 && os.Args[1] == "worker" {
 		out := os.Stdout
@@ -23,7 +30,7 @@ func main() {
 		return
 	}
 	if len(os.Args) > 1 && os.Args[1] == "time" {
-		sc := bfs.Make("c29/rewards")
+		sc := bfs.Make(scenName())
 		for i, n := range sc.Ops() {
 			t0 := time.Now()
 			sc.Reset()
@@ -35,7 +42,7 @@ func main() {
 		return
 	}
 	if len(os.Args) > 2 && os.Args[1] == "path" {
-		sc := bfs.Make("c29/rewards")
+		sc := bfs.Make(scenName())
 		idx := map[string]int{}
 		for i, n := range sc.Ops() {
 			idx[n] = i
@@ -58,7 +65,7 @@ func main() {
 		return
 	}
 	if len(os.Args) > 1 && os.Args[1] == "cpu" {
-		sc := bfs.Make("c29/rewards")
+		sc := bfs.Make(scenName())
 		n := len(sc.Ops())
 		var ru0, ru1 syscall.Rusage
 		syscall.Getrusage(syscall.RUSAGE_SELF, &ru0)
@@ -76,14 +83,20 @@ func main() {
 				if st.Accepted {
 					sc.Hash()
 				}
-				if st.Accepted && d > 1 && op%3 == 0 {
+				if st.Accepted && d > 1 && (op%3 == 0 || os.Getenv("C29_ALL") != "") {
 					rec(append(append([]int{}, path...), op), d-1)
 				}
 			}
 		}
 		pf, _ := os.Create("/verif/.cache/c29.prof")
 		pprof.StartCPUProfile(pf)
-		rec(nil, 4)
+		dd := 4
+		if os.Getenv("C29_ALL") != "" {
+			dd = 4
+		}
+		t0 := time.Now()
+		rec(nil, dd)
+		fmt.Println("wall", time.Since(t0))
 		pprof.StopCPUProfile()
 		pf.Close()
 		syscall.Getrusage(syscall.RUSAGE_SELF, &ru1)
